@@ -309,6 +309,8 @@ static void boundary_points(const System& sys, const Params& P, const std::vecto
   bool used[4] = {false, false, false, false}; for (auto& p : lattice) for (int j = 0; j < 4; j++) if (p.c[j] != 0) used[j] = true;
   const char* per[3] = {"Lx", "Ly", "Lz"}; LD len[3]; bool has[3]; int nlen = 0;
   for (int j = 0; j < 3; j++) { has[j] = false; if (!used[j]) continue; if (P.has(per[j])) { len[j] = P.m.at(per[j]); has[j] = true; } else if (P.has("L")) { len[j] = P.m.at("L"); has[j] = true; } if (has[j]) nlen++; }
+  { int first = -1, nused = 0; for (int j = 0; j < 4; j++) if (used[j]) { if (first < 0) first = j; nused++; }
+    if (nused > 1 && sys.singular_axis < 0) { Pt dg = *b; for (int j = 0; j < 4; j++) if (used[j]) dg.c[j] = b->c[first]; out.push_back(dg); } }  // the diagonal x = y = z = t (bit-identical coordinates)
   if (nlen == 0) return;
   Pt corner = *b; corner.variant = b->variant;
   for (int j = 0; j < 3; j++) if (has[j]) { Pt q = *b; q.c[j] = len[j]; out.push_back(q); if (j != sys.singular_axis) { Pt z = *b; z.c[j] = 0; out.push_back(z); } corner.c[j] = len[j]; }
